@@ -397,6 +397,18 @@ def run_async(rep, tier, setname, what, keep=None):
 @check("C09", "model_checking")
 def c09(tier, rep):
     run_async(rep, tier, "c09", "async macro")
+    # conformance of the seams (tokio shim, gates): the same programs free-running on REAL tokio / futures executors
+    from . import fam_async
+
+    rp = fam_async.real_tokio_programs(tier)
+    fr = e2.run_family("c09real", rp, extra_header=fam_async.REAL_HEADER)
+    for p, rendered in fr.compile_violations:
+        rep.violate("%s | compile (real tokio)" % p.meta["dsl"], "macro output does not compile against real tokio: %s" % p.meta["dsl"], {"rustc": rendered})
+    for p, mm, n in fr.mismatches:
+        rep.violate("%s | real tokio row %s" % (p.meta["dsl"], mm["row"]), "on REAL tokio/futures (free-running, pending points wake themselves) the macro disagrees with the reference: %s / %s [%s]" % (json.dumps(mm["ref"])[:200], json.dumps(mm["mac"])[:200], p.meta["dsl"][:300]),
+                    {"program": p.id, "dsl": p.meta["dsl"], "mismatch": mm, "mac_body": p.mac, "ref_body": p.ref, "engine": "E2", "family": fr.name, "extra_header": fr.extra_header, "cmp": p.cmp, "row": mm["row"], "pre": ""})
+    rep.add("real_tokio_conformance_runs", fr.rows)
+    rep.add("traces_validated_against_impl", fr.rows)
     rep.set("rule", "gated depth profiles x 6 async macros x gate placements {one per branch-step, two in branch 0, none in branch 0} + awaited handlers; explicit-state search over ALL decision sequences (poll root / poll woken task / release any pending point before or after it was polled / spurious poll), canonical-state pruning cross-checked against the unpruned exploration on the small programs; per state: progress invariant at every quiescent point; per execution: lazy construction, no hang, result and per-branch traces equal the reference; non-trivial program = >= 2 distinct logs")
 
 
